@@ -28,6 +28,9 @@ def validDecl (σ : Sig) (decl : List Int) : Bool :=
 
 def ValidDecl (σ : Sig) (decl : List Int) : Prop := validDecl σ decl = true
 
+instance (σ : Sig) (decl : List Int) : Decidable (ValidDecl σ decl) :=
+  inferInstanceAs (Decidable (validDecl σ decl = true))
+
 /-- the declared — else signature-derived — bounds, in lisp arguments -/
 def bounds (σ : Sig) (decl : List Int) : Int × Int :=
   match decl with
@@ -64,6 +67,9 @@ def admissibleB (σ : Sig) (decl : List Int) (as : List Val) : Bool :=
 
 /-- the call is within the declared contract -/
 def Admissible (σ : Sig) (decl : List Int) (as : List Val) : Prop := admissibleB σ decl as = true
+
+instance (σ : Sig) (decl : List Int) (as : List Val) : Decidable (Admissible σ decl as) :=
+  inferInstanceAs (Decidable (admissibleB σ decl as = true))
 
 /-- what the caller must get back -/
 inductive Expect where
@@ -116,6 +122,8 @@ def GoName.runtime (g : GoName) : List Char :=
 /-- Go identifiers contain no dot -/
 def GoName.WellFormed (g : GoName) : Prop := '.' ∉ g.simple
 
+instance (g : GoName) : Decidable g.WellFormed := inferInstanceAs (Decidable ('.' ∉ g.simple))
+
 /-- the name the function must be registered under -/
 def specName (overrideFN : Option (List Char)) (g : GoName) : List Char :=
   match overrideFN with
@@ -125,28 +133,5 @@ def specName (overrideFN : Option (List Char)) (g : GoName) : List Char :=
 /-- the package-qualified prefix of the runtime name (everything before the last dot) -/
 def GoName.qual (g : GoName) : List Char :=
   g.pkgPath ++ (g.outer.map (fun o => '.' :: o)).flatten
-
-/-! ### the two classes in which the unchanged code leaves the contract
-
-  They appear only as *excluded* classes in the hypotheses of the `_partial` theorems of Props/C20.lean
-  (and, positively, in its `baseline_…_counterexample` theorems). -/
-
-/-- the numbers a variadic function's count is compared with when nothing is derived from `NumIn()`:
-    the declaration, else `0 … unlimited` -/
-def declaredOrDefault (decl : List Int) : Int × Int :=
-  match decl with
-  | [a] => (a, unlimited)
-  | [a, b] => (a, b)
-  | _ => (0, unlimited)
-
-/-- class (i): a variadic function with a context parameter, called with one argument less than the
-    minimum or with exactly the maximum (declared, or the default `unlimited`) -/
-def CtxBoundsDefect (σ : Sig) (decl : List Int) (n : Nat) : Prop :=
-  σ.ctx = true ∧ σ.variadic.isSome = true ∧
-    ((n : Int) + 1 = (declaredOrDefault decl).1 ∨ (n : Int) = (declaredOrDefault decl).2)
-
-/-- class (ii): `CallOverrideFN` with a named (top-level) function of a package whose import path has no dot -/
-def DotlessOverrideDefect (overrideFN : Option (List Char)) (g : GoName) : Prop :=
-  overrideFN.isSome = true ∧ g.outer = [] ∧ '.' ∉ g.pkgPath
 
 end LispModel.CallSpec
